@@ -47,6 +47,12 @@ type Case struct {
 	ViaFile bool           `json:"via_file"`
 	Tamper  Tamper         `json:"tamper"`
 	Time    string         `json:"time"` // mid start end start-1 end+1
+	// Decoys: between the exchanges of the bundle each signer is also OFFERED exchanges it must
+	// refuse - "dup": another response for a URL it has already accepted (a second variant),
+	// "unencodable": a response whose header cannot be encoded, for a URL that is not in the
+	// bundle - and carries on, as a caller that skips what cannot be signed does. What was
+	// accepted before and after has to verify as if nothing had been offered in between.
+	Decoys string `json:"decoys,omitempty"` // "" dup unencodable both
 }
 
 const baseDate = int64(1_700_000_000)
@@ -135,6 +141,21 @@ func check(c Case, r *vh.R) {
 			if err := sg.AddExchange(e, id); err != nil {
 				r.Failf("addexchange-error", "AddExchange: %v", err)
 				return
+			}
+			if c.Decoys == "dup" || c.Decoys == "both" {
+				d := &bundle.Exchange{Request: e.Request, Response: bundle.Response{Status: 404, Header: map[string][]string{"Content-Type": {"x/decoy"}}, Body: []byte("decoy body")}}
+				if derr := sg.AddExchange(d, id); derr != nil {
+					r.Class("decoy-refused:dup")
+				}
+			}
+			if c.Decoys == "unencodable" || c.Decoys == "both" {
+				du := *e.Request.URL
+				du.Path = fmt.Sprintf("/decoy-%d-%d", si, i)
+				du.RawPath, du.RawQuery = "", ""
+				d := &bundle.Exchange{Request: bundle.Request{URL: &du}, Response: bundle.Response{Status: 200, Header: map[string][]string{"X-Bad-\u00e9": {"v"}}, Body: []byte("decoy body")}}
+				if derr := sg.AddExchange(d, id); derr != nil {
+					r.Class("decoy-refused:unencodable")
+				}
 			}
 		}
 		sigs, err := sg.UpdateSignatures(b.Signatures)
@@ -562,7 +583,7 @@ func genSigner(t *rapid.T, fixtures []int) SignerSpec {
 
 func TestPropSignatures(t *testing.T) {
 	prop.Rapid(t, func(t *rapid.T) Case {
-		c := Case{Bundle: genBundle(t), ViaFile: rapid.Bool().Draw(t, "viafile"), Time: "mid"}
+		c := Case{Bundle: genBundle(t), ViaFile: rapid.Bool().Draw(t, "viafile"), Time: "mid", Decoys: rapid.SampledFrom([]string{"", "", "dup", "unencodable", "both"}).Draw(t, "decoys")}
 		ns := rapid.SampledFrom([]int{1, 1, 2, 2, 3}).Draw(t, "nsigners")
 		for i := 0; i < ns; i++ {
 			c.Signers = append(c.Signers, genSigner(t, []int{0, 1, 2, 4, 5}))
